@@ -45,13 +45,13 @@ func (s concState) fresh(router string) *restful.Container {
 	return c
 }
 
-var concProbes = []string{"/a", "/a/x", "/a/dyn", "/b", "/b/x", "/b/dyn", "/c/7", "/c/7/x", "/d/x", "/zz", "/a/q", "/b/q", "/c/7/g", "/c/7/g/x"}
+var concProbes = []string{"/a", "/a/x", "/a/dyn", "/b", "/b/x", "/b/dyn", "/c/7", "/c/7/x", "/d/x", "/zz", "/a/q", "/b/q", "/c/7/g", "/c/7/g/x", "/a/42/n", "/b/42/n", "/d/42/n", "/a/q/n"}
 
 func applyConcOp(s concState, op []string) concState {
 	n := s.clone()
 	switch op[0] {
 	case "add":
-		n.services = append(n.services, &regService{root: op[1], routes: []string{"", "/x", "/{p}"}})
+		n.services = append(n.services, &regService{root: op[1], routes: []string{"", "/x", "/{p}", "/{n:[0-9]+}/n"}})
 	case "remove":
 		out := []*regService{}
 		for _, x := range n.services {
@@ -143,7 +143,7 @@ var byHandlerSeq int64
 
 func runConcRound(tw *traceWriter, r *rand.Rand, round int, servers, nops int) {
 	router := pick(r, []string{"curly", "jsr311"})
-	init := concState{services: []*regService{{root: "/a", routes: []string{"", "/x", "/{p}"}}, {root: "/b", routes: []string{"", "/x", "/{p}"}}}}
+	init := concState{services: []*regService{{root: "/a", routes: []string{"", "/x", "/{p}", "/{n:[0-9]+}/n"}}, {root: "/b", routes: []string{"", "/x", "/{p}", "/{n:[0-9]+}/n"}}}}
 	ops := randomConcOps(r, init, nops)
 	// the sequence of registration states and what a fresh container answers in each
 	states := []concState{init}
@@ -223,7 +223,7 @@ func runConcRound(tw *traceWriter, r *rand.Rand, round int, servers, nops int) {
 			pv := safely(func() {
 				switch op[0] {
 				case "add":
-					ws := (&regService{root: op[1], routes: []string{"", "/x", "/{p}"}}).build()
+					ws := (&regService{root: op[1], routes: []string{"", "/x", "/{p}", "/{n:[0-9]+}/n"}}).build()
 					live[op[1]] = ws
 					c.Add(ws)
 				case "remove":
@@ -295,7 +295,7 @@ func norm404(proj string) string {
 // holding what the two histories leave behind
 func runConcDuo(tw *traceWriter, r *rand.Rand, round, servers int) {
 	router := pick(r, []string{"curly", "jsr311"})
-	init := concState{services: []*regService{{root: "/a", routes: []string{"", "/x", "/{p}"}}, {root: "/b", routes: []string{"", "/x", "/{p}"}}}}
+	init := concState{services: []*regService{{root: "/a", routes: []string{"", "/x", "/{p}", "/{n:[0-9]+}/n"}}, {root: "/b", routes: []string{"", "/x", "/{p}", "/{n:[0-9]+}/n"}}}}
 	// many more services and plain handlers: rebuilding the ServeMux in Remove takes a while
 	for i := 0; i < 30; i++ {
 		init.services = append(init.services, &regService{root: fmt.Sprintf("/z%d", i), routes: []string{""}})
@@ -386,7 +386,7 @@ func runConcDuo(tw *traceWriter, r *rand.Rand, round, servers int) {
 				pv := safely(func() {
 					switch op[0] {
 					case "add":
-						ws := (&regService{root: op[1], routes: []string{"", "/x", "/{p}"}}).build()
+						ws := (&regService{root: op[1], routes: []string{"", "/x", "/{p}", "/{n:[0-9]+}/n"}}).build()
 						liveMu.Lock()
 						live[op[1]] = ws
 						liveMu.Unlock()
